@@ -291,3 +291,7 @@ def replay(d):
         bad = allc != list(range(52)) or any(len(hi[s]) != 13 for s in SEATS)
         return bad, f'hands sizes {[len(hi[s]) for s in SEATS]}'
     return False, 'unknown'
+
+
+from ..conc import driver as _conc  # noqa: E402
+_conc.wrap(globals(), 'C14')
